@@ -342,7 +342,7 @@ func (r *concpRunner) execSched(sched []string) string {
 		}
 		select {
 		case ths[ti].token <- struct{}{}:
-		case <-time.After(2 * time.Second):
+		case <-time.After(30 * time.Second):
 			timeout = true
 		}
 		if timeout {
@@ -350,7 +350,7 @@ func (r *concpRunner) execSched(sched []string) string {
 		}
 		select {
 		case <-ths[ti].done:
-		case <-time.After(2 * time.Second):
+		case <-time.After(30 * time.Second):
 			timeout = true
 		}
 		if timeout {
@@ -358,7 +358,7 @@ func (r *concpRunner) execSched(sched []string) string {
 		}
 	}
 	if timeout {
-		r.add("C11", "schedule-infeasible", "a thread did not reach its next block boundary within 2s (block structure differs from the model, or deadlock)")
+		r.add("C11", "schedule-infeasible", "a thread did not reach its next block boundary within 30s (block structure differs from the model, or deadlock)")
 		return "TIMEOUT"
 	}
 	// let every thread run to completion (unscheduled remainder runs sequentially in thread order)
@@ -442,7 +442,7 @@ func (r *concpRunner) execWindow(hookID string, parkedOp cop, probes []string) {
 		<-parkedDone
 	}
 	// wait for blocked probes
-	deadline := time.Now().Add(2 * time.Second)
+	deadline := time.Now().Add(30 * time.Second)
 	for time.Now().Before(deadline) {
 		h.mu.Lock()
 		n := len(h.ops)
